@@ -291,8 +291,25 @@ func (r *refRun) occurrence(o *OptInfo, inline *string, canNext bool) *RefErr {
 		text = *inline
 	case canNext && !o.IsOptional() && len(r.args) > 0:
 		t := r.pop()
-		if isOptSyntax(t.s) && !(o.Kind.IsSignedNum() && len(t.s) > 1 && t.s[1] >= '0' && t.s[1] <= '9') {
-			return &RefErr{Types: []flags.ErrorType{flags.ErrExpectedArgument}, Name: o.Display(), Why: "option-looking token where an argument was expected"}
+		if isOptSyntax(t.s) {
+			// documented exception: a negative number given to a signed numeric option
+			negNum := false
+			if o.Kind.IsSignedNum() && t.s[0] == '-' {
+				if _, ver := RefOne(o.Kind, o.Base, t.s); ver == Accept {
+					negNum = true
+				} else if t.s[1] >= '0' && t.s[1] <= '9' {
+					// number-like but not a number of this type: a rejection
+					// is due, as a missing argument or as a bad value
+					ts := []flags.ErrorType{flags.ErrExpectedArgument, flags.ErrMarshal}
+					if len(o.Choices) > 0 {
+						ts = append(ts, flags.ErrInvalidChoice)
+					}
+					return &RefErr{Types: ts, Name: o.Display(), Why: "number-like option-looking token that is no number of the option's type"}
+				}
+			}
+			if !negNum {
+				return &RefErr{Types: []flags.ErrorType{flags.ErrExpectedArgument}, Name: o.Display(), Why: "option-looking token where an argument was expected"}
+			}
 		}
 		if r.d.Has(flags.PassDoubleDash) && t.s == "--" {
 			return &RefErr{Types: []flags.ErrorType{flags.ErrExpectedArgument}, Name: o.Display(), Why: "terminator where an argument was expected"}
